@@ -42,10 +42,11 @@ type item struct {
 }
 
 type hrec struct {
-	nonce        int
-	peer         string
-	entry, exit  string
-	n            int
+	nonce         int
+	peer          string
+	entry, exit   string
+	encIn, encOut string // the message's re-encoding at handler entry and exit
+	n             int
 }
 
 var errScripted = errors.New("scripted read error")
@@ -232,10 +233,10 @@ func runCase(r *mon.Rec, famName string, idx int) {
 			}
 		}
 	}
-	enter := func(nonce int, peer net.Addr, snap func() string) {
+	enter := func(nonce int, peer net.Addr, snap func() string, enc func() []byte) {
 		hwg.Add(1)
 		defer hwg.Done()
-		h := &hrec{nonce: nonce, entry: snap()}
+		h := &hrec{nonce: nonce, entry: snap(), encIn: string(enc())}
 		if peer != nil {
 			h.peer = peer.String()
 		}
@@ -244,6 +245,7 @@ func runCase(r *mon.Rec, famName string, idx int) {
 		mu.Unlock()
 		wait(nonce)
 		h.exit = snap()
+		h.encOut = string(enc())
 	}
 	serveDone := make(chan struct{})
 	var serveErr error
@@ -256,7 +258,7 @@ func runCase(r *mon.Rec, famName string, idx int) {
 					nonce = int(binary.BigEndian.Uint32(o.ToBytes()))
 				}
 			}
-			enter(nonce, peer, func() string { return proj.M6(m).String() })
+			enter(nonce, peer, func() string { return proj.M6(m).String() }, m.ToBytes)
 		}, server6.WithConn(conn))
 		if err != nil {
 			panic(err)
@@ -272,7 +274,7 @@ func runCase(r *mon.Rec, famName string, idx int) {
 			enter(nonce, peer, func() string {
 				e, _ := proj.P4(m)
 				return e.Canon()
-			})
+			}, m.ToBytes)
 		}, server4.WithConn(conn))
 		if err != nil {
 			panic(err)
@@ -361,7 +363,7 @@ func runCase(r *mon.Rec, famName string, idx int) {
 			bad("message-differs", "handler got a message that differs from the independent decoding of datagram %d: %.300s vs %.300s", h.nonce, h.entry, it.want)
 			return
 		}
-		if h.exit != h.entry {
+		if h.exit != h.entry || h.encIn != h.encOut {
 			bad("message-changed-while-handled", "message of datagram %d changed while its handler was running (release plan %s): %.200s -> %.200s", h.nonce, it.release, h.entry, h.exit)
 			return
 		}
